@@ -472,6 +472,44 @@ example :
   rcases h with rfl | rfl | rfl | rfl | rfl <;> (unfold Call.WallOk WallOk; omega)
 
 
+/-! ### The reading of the system clock (D28) -/
+
+/-- Every reading of the system clock - before the datacake epoch included - is turned by
+`get_datacake_timestamp` into a wall reading the theorems above accept: `WallOk` is not an
+assumption about the environment, it holds for the conversion whatever the clock says. -/
+theorem wallOfUnix_wallOk (unixMs : Nat) : WallOk (wallOfUnix unixMs) := by
+  show (partsAsDuration (durSecs (unixMs - DATACAKE_EPOCH_MS)) (durFrac (unixMs - DATACAKE_EPOCH_MS))) % 4 = 0
+  unfold partsAsDuration durSecs durFrac
+  omega
+
+/-- From the epoch on the conversion is the pinned one, rounded down to 4 ms. -/
+theorem wallOfUnix_of_le (unixMs : Nat) (h : DATACAKE_EPOCH_MS ≤ unixMs) :
+    wallOfUnixLegacy unixMs = some (wallOfUnix unixMs) ∧
+    wallOfUnix unixMs ≤ unixMs - DATACAKE_EPOCH_MS ∧ unixMs - DATACAKE_EPOCH_MS < wallOfUnix unixMs + 4 := by
+  have e : wallOfUnix unixMs =
+      partsAsDuration (durSecs (unixMs - DATACAKE_EPOCH_MS)) (durFrac (unixMs - DATACAKE_EPOCH_MS)) := rfl
+  refine ⟨?_, ?_, ?_⟩
+  · unfold wallOfUnixLegacy
+    rw [if_neg (by omega), e]
+  · rw [e]; unfold partsAsDuration durSecs durFrac; generalize unixMs - DATACAKE_EPOCH_MS = d; omega
+  · rw [e]; unfold partsAsDuration durSecs durFrac; generalize unixMs - DATACAKE_EPOCH_MS = d; omega
+
+/-- Before the epoch the reading counts as the epoch: `send` still succeeds and the clock still
+strictly increases (through the counter), where the pinned conversion panicked. -/
+theorem wallOfUnix_before_epoch (unixMs : Nat) (h : unixMs < DATACAKE_EPOCH_MS) :
+    wallOfUnix unixMs = 0 ∧ wallOfUnixLegacy unixMs = none := by
+  refine ⟨?_, by unfold wallOfUnixLegacy; rw [if_pos h]⟩
+  show partsAsDuration (durSecs (unixMs - DATACAKE_EPOCH_MS)) (durFrac (unixMs - DATACAKE_EPOCH_MS)) = 0
+  have : unixMs - DATACAKE_EPOCH_MS = 0 := by omega
+  rw [this]; rfl
+
+/-- The witness of D28 (22 June 2022 on the system clock): the pinned code panics, the repaired one
+issues the next stamp. -/
+theorem legacy_wall_before_epoch_panics :
+    wallOfUnixLegacy 1656000000000 = none ∧
+    (send (pack 10000 0 1) (wallOfUnix 1656000000000)).toOption = some (pack 10000 1 1) := by decide
+
+
 /-! ### The tree before the fix for D16 -/
 
 /-- Before the fix, a wall reading past the 32-bit seconds made `send` succeed with a stamp far
